@@ -10,12 +10,12 @@ import (
 
 // Shape parameters (set by the check per tier).
 var (
-	vsymC01Nsec   = 1      // number of section headers
-	vsymC01Plus   = 1      // 1: PE32+, 0: PE32
-	vsymC01Lfanew = 0x80   // e_lfanew (case-split by the registry)
-	vsymC01MaxLen = 1 << 24 // image length bound
-	vsymC01NoCert   = 0    // 1: no certificate table (quick tier for two sections)
-	vsymC01NonEmpty = 0    // 1: every section has raw data (quick tier for two sections)
+	vsymC01Nsec     = 1       // number of section headers
+	vsymC01Plus     = 1       // 1: PE32+, 0: PE32
+	vsymC01Lfanew   = 0x80    // e_lfanew (case-split by the registry)
+	vsymC01MaxLen   = 1 << 24 // image length bound
+	vsymC01NoCert   = 0       // 1: no certificate table (quick tier for two sections)
+	vsymC01NonEmpty = 0       // 1: every section has raw data (quick tier for two sections)
 )
 
 func v16(b []byte, o int) uint16 { return uint16(b[o]) | uint16(b[o+1])<<8 }
@@ -71,10 +71,10 @@ func vWF(img []byte) (*vImg, bool) {
 	ok := vsym.And(
 		img[0] == 'M', img[1] == 'Z', v32(img, 0x3c) == uint32(e),
 		img[e] == 'P', img[e+1] == 'E', img[e+2] == 0, img[e+3] == 0,
-		v16(img, e+4) == 0x8664,             // Machine
-		v16(img, e+6) == uint16(nsec),       // NumberOfSections
+		v16(img, e+4) == 0x8664,                  // Machine
+		v16(img, e+6) == uint16(nsec),            // NumberOfSections
 		v32(img, e+12) == 0, v32(img, e+16) == 0, // no COFF symbol table
-		v16(img, e+20) == uint16(optSize),   // SizeOfOptionalHeader
+		v16(img, e+20) == uint16(optSize), // SizeOfOptionalHeader
 		v16(img, opt) == magic,
 		v32(img, nrvaOff) == 16,
 		sh >= hdrEnd, sh <= L,
@@ -116,12 +116,12 @@ func vWellFormedImage(gapFree bool) *vImg {
 // (steps 3-14 of the specification), applied to the image zero-padded to 8 bytes.
 func vSpecStream(v *vImg) []byte {
 	img := v.img
-	ref := append([]byte{}, img[0:v.ck]...)      // 3: up to the checksum
-	ref = append(ref, img[v.ck+4:v.dd4]...)       // 4-5: skip checksum, up to the certificate table entry
-	ref = append(ref, img[v.dd4+8:v.sh]...)       // 6-7: skip the entry, rest of the headers
-	sum := v.sh                                   // 8
-	secs := append([]vSec{}, v.secs...)           // 9
-	for i := 1; i < len(secs); i++ {              // 10: ascending PointerToRawData
+	ref := append([]byte{}, img[0:v.ck]...) // 3: up to the checksum
+	ref = append(ref, img[v.ck+4:v.dd4]...) // 4-5: skip checksum, up to the certificate table entry
+	ref = append(ref, img[v.dd4+8:v.sh]...) // 6-7: skip the entry, rest of the headers
+	sum := v.sh                             // 8
+	secs := append([]vSec{}, v.secs...)     // 9
+	for i := 1; i < len(secs); i++ {        // 10: ascending PointerToRawData
 		for j := i; j > 0 && secs[j].ptr < secs[j-1].ptr; j-- {
 			secs[j], secs[j-1] = secs[j-1], secs[j]
 		}
